@@ -18,11 +18,17 @@ package security
 //@ define ctxId(ctx) = dyn(ctxval(ctx, identity.CTXKey), ptr(identity.User))
 //@ define hasId(ctx) = typeIs(ctxval(ctx, identity.CTXKey), ptr(identity.User)) && ctxId(ctx) != nil
 //@ define tunnelUser(ctx) = dyn(ctxTunnel(ctx).User, ptr(identity.User))
-//@ define hostListed(host, user) = (exists k :: 0 <= k && k < len(Hosts) && strings.Replace(Hosts[k], "{{ preferred_username }}", user, 1) == host)
+// a host written without a port means the remote desktop port: the channel request of a tunnel always carries one
+//@ define withPort(h) = ite(nth(2, net.SplitHostPort(h)) == nil, h, net.JoinHostPort(h, "3389"))
+//@ define hostListed(host, user) = (exists k :: 0 <= k && k < len(Hosts) && withPort(strings.Replace(Hosts[k], "{{ preferred_username }}", user, 1)) == host)
+
+//@ func hostPort
+//@   ensures[C03,C12] portAdded: result == withPort(host)
+//@   nopanic[C10]
 
 //@ func CheckHost
 //@   requires[C10] tunnel: (HostSelection == "roundrobin" || HostSelection == "unsigned") ==> hasTunnel(ctx) && ctxTunnel(ctx).User != nil && tunnelUser(ctx) != nil
-//@   loop 0 invariant scanned: -1 <= rangeindex && rangeindex < len(Hosts) && (forall j :: 0 <= j && j <= rangeindex ==> strings.Replace(Hosts[j], "{{ preferred_username }}", tunnelUser(ctx).userName, 1) != host)
+//@   loop 0 invariant scanned: -1 <= rangeindex && rangeindex < len(Hosts) && (forall j :: 0 <= j && j <= rangeindex ==> withPort(strings.Replace(Hosts[j], "{{ preferred_username }}", tunnelUser(ctx).userName, 1)) != host)
 //@   ensures[C03] any: HostSelection == "any" ==> result0
 //@   ensures[C03] signed: HostSelection == "signed" ==> !result0
 //@   ensures[C03] list: HostSelection == "roundrobin" || HostSelection == "unsigned" ==> result0 == (tunnelUser(ctx).userName != "" && hostListed(host, tunnelUser(ctx).userName))
@@ -32,7 +38,7 @@ package security
 //@ func CheckSession$1
 //@   requires[C10] wf: next != nil && *next != nil && hasId(ctx)
 //@   assigns #hostOK, #hostChecked
-//@   ensures[C03,C04] iff: result0 == (hasTunnel(ctx) && ctxTunnel(ctx).TargetServer == host && (!VerifyClientIP || box(ctxTunnel(ctx).RemoteAddr) == ctxId(ctx).attributes["clientIp"]) && #hostOK)
+//@   ensures[C03,C04] iff: result0 == (hasTunnel(ctx) && withPort(ctxTunnel(ctx).TargetServer) == host && (!VerifyClientIP || box(ctxTunnel(ctx).RemoteAddr) == ctxId(ctx).attributes["clientIp"]) && #hostOK)
 //@   ensures[C03] policy: result0 ==> #hostOK && #hostChecked == host
 //@   nopanic[C10]
 
